@@ -2151,7 +2151,11 @@ impl<'a> CompilerState<'a> {
                                 Rule::array_spec => {
                                     start = pair.as_span().start();
                                     if let Some(px) = pair.into_inner().next() {
-                                        size = Some(self.parse_calc(px.into_inner())? as usize);
+                                        let n = self.parse_calc(px.into_inner())?;
+                                        if n < 0 {
+                                            return Err(self.syntax_error("Negative array size", start));
+                                        }
+                                        size = Some(n as usize);
                                     }
                                     if var_type == VariableType::Char {
                                         var_type = VariableType::CharPtr;
